@@ -100,6 +100,12 @@ func computeClosureAliases(funcs []*ssa.Function) {
 					cl, _ = mc.Fn.(*ssa.Function)
 				} else if f, ok := sv.(*ssa.Function); ok && f.Parent() == fn {
 					cl = f
+				} else if ok && f.Parent() == nil && f.Pkg == fn.Pkg && f.Object() != nil && !f.Object().Exported() && f.Signature.Recv() == nil {
+					// a named unexported function of the same package stored into the slot
+					// (`Bool: coerceBool`) is that slot's function just as a literal would be
+					if _, taken := closureAlias[f]; !taken {
+						cl = f
+					}
 				}
 				if cl == nil {
 					continue
